@@ -27,6 +27,8 @@ for d in seeded/*/; do
   case "$(basename $d)" in
     C05-trio-pool-timeout-cancel-called) continue;;  # neutralised by repo fix bcb0a82 (see its meta.json)
     C01-h2-flush-acks-before-dispatching-read-events) continue;;  # not reported: hidden behind the open finding F-C07 (see its meta.json)
+    C08-pool-request-wait-without-assigned-guard|C16-sync-write-settimeout-hoisted-out-of-send-loop) continue;;  # not reported by the quick tier (see each meta.json)
+    C11-origin-eq-folds-ws-into-http) id=C10;;
     # written for one property, reported by the check of another (see each meta.json)
     C07-h2-validate-head-before-slot-wait|C04-response-close-finally-drops-shield|C07-pool-response-close-finally-instead-of-shield) id=C05;;
     C11-tunnel-connect-lock-check-outside-lock|C08-h2-setup-count-dropped-before-stream-slot) id=C12;;
